@@ -24,6 +24,14 @@ CHECKS = {
         technique="stateless model checking: deviation-bounded DFS over schedules and transport faults of the real goroutine code under a controlled scheduler (synctest bubble); plus exhaustive window arithmetic for every sequence-space size",
         text="Every execution of the uni/bidi scenarios with at most the listed numbers of scheduling deviations and transport faults (drop, in-order dup, delay) is run on the real code and the prefix oracle (Recv results are a prefix of Send-accepted payloads, byte-equal, both directions) is evaluated at every quiescent state. The window arithmetic that depends on N is enumerated for every sequence space s=2..255.",
         note=NOTE_E1),
+    "C05": dict(built=True, engine=E3, level=MC, design="4/C05",
+        technique="stateless model checking of the composed stack (mailbox Server/Client, ServerConn/ClientConn, GBN, Noise) over an in-memory hashmail relay: deviation-bounded DFS over schedules and relay faults (message drop, delay, stream kill)",
+        text="Every execution within budget of a full paired session (Server.Accept + Client.Dial, both GBN handshakes, both Noise handshakes, writes of 1..65535 bytes both ways, application-level final ack, hang-up) on the instrumented real code over a fake relay that follows aperture's stream semantics: at every quiescent state the bytes read are a prefix of the bytes written per direction, no message the relay ever saw contains an 8-byte plaintext or auth-payload window, and at the end (100 s after the last fault) the transfer completed or some call reported an error.",
+        note=NOTE_E1 + " The relay model (one reader/writer per stream, FIFO, rejected first message lost, release when the holder's context is done) is taken from aperture v0.3.11; its rate limiter and pipe back-pressure are represented by the delay fault only. The websocket transport is not driven."),
+    "C11": dict(built=True, engine=E3, level=MC, design="4/C11",
+        technique="stateless model checking of consecutive sessions through Server.Accept / Client.Dial over the fake relay, with the close-by-client / close-by-server / relay-failure events placed by the scheduler and an unpaired intruder client",
+        text="Two or three consecutive sessions with re-entering accept and dial loops: a connection is never handed out while the previous one of that side is still open; after a close the next Accept/Dial yields a working connection that transfers data; after a version-2 pairing both sides present the same new key-derived stream ids and use KK; a different client with only the original passphrase never completes a handshake and never receives the auth payload.",
+        note=NOTE_E1 + " The intruder is started after the first (pairing) session has ended."),
     "C06": dict(built=True, engine=E1, level=MC, design="4/C06",
         technique="stateless model checking of the real goroutine code: every execution with bounded fault prefixes (drop/dup/delay after a clean handshake) and scheduling deviations, virtual time to a 150 s horizon, progress/quiet oracles",
         text="All executions of the uni/bidi/adaptive/keepalive traffic scenarios within the listed deviation budgets are run to a horizon far beyond any recovery time; at the end every accepted message must have been delivered (keepalive off: no endpoint may have closed), no call may hang after a self-closure, and after everything is acknowledged no DATA packet may be transmitted for 12 s.",
